@@ -50,7 +50,8 @@ type BoundedMailbox struct {
 var _ Mailbox = (*BoundedMailbox)(nil)
 
 // NewBoundedMailbox creates a new bounded, blocking mailbox with the given
-// capacity. Capacity must be a positive integer.
+// capacity. Capacity must be a positive integer; it is rounded up to the next
+// power of two, with a minimum of two.
 //
 // Behavior
 //   - When the mailbox reaches capacity, Enqueue blocks until space becomes
@@ -58,6 +59,14 @@ var _ Mailbox = (*BoundedMailbox)(nil)
 //   - When the mailbox is empty, Dequeue blocks until a message arrives (or the
 //     mailbox is disposed).
 func NewBoundedMailbox(capacity int) *BoundedMailbox {
+	// The ring buffer rounds its size up to a power of two and cannot tell a full
+	// single-cell ring from an empty one: with one cell a second Enqueue overwrites
+	// the first and the next Dequeue never returns. Use at least two cells, as
+	// NonBlockingBoundedMailbox does.
+	if capacity < 2 {
+		capacity = 2
+	}
+
 	return &BoundedMailbox{
 		underlying: gods.NewRingBuffer(uint64(capacity)),
 	}
